@@ -3,7 +3,7 @@
 import sys, os, shutil, json, re
 ID, X, needs, ran, caught = sys.argv[1:6]
 missed = sys.argv[6] if len(sys.argv) > 6 else ''
-src = f'/tmp/wt-{ID}/SEEDED'
+src = os.environ.get('SRC', f'/tmp/wt-{ID}/SEEDED')
 OUT = os.environ.get('OUT', X)
 dst = f'/verif/seeded/{ID}-{OUT}'
 os.makedirs(dst, exist_ok=True)
@@ -23,7 +23,7 @@ extra = [f for f in os.listdir(src) if not re.fullmatch(r'[A-Z]\.(diff|demo\.sh)
 if extra:
     os.makedirs(f'{dst}/extras', exist_ok=True)
     for f in extra:
-        subprocess.run(['rsync', '-a', '--exclude', 'target', f'{src}/{f}', f'{dst}/extras/'], check=False)
+        subprocess.run(['rsync', '-a', '--exclude', 'target', '--exclude', '*.log', '--exclude', '*-test*.txt', '--exclude', '.*', f'{src}/{f}', f'{dst}/extras/'], check=False)
     meta['demo_helper_files'] = 'extras/ (the demo expects them beside it, as in the sub-agent\'s SEEDED directory)'
 json.dump(meta, open(f'{dst}/meta.json', 'w'), indent=1)
 print('kept', dst)
